@@ -375,6 +375,11 @@ func Generate(seed uint64, prop, tier string) *Plan {
 		nd := r.Range(0, 2)
 		for i := 0; i < nd; i++ {
 			cp := ConnPlan{Dial: true}
+			if c.LB == 2 && nconn > 0 && r.Chance(1, 2) {
+				// the framework dials (or is handed) a remote address that an accepted
+				// peer also has: the hash policy must send both to the same loop
+				cp.AddrOf = 1 + r.Intn(nconn)
+			}
 			for j := r.Range(0, 3); j > 0; j-- {
 				n := pickSize(r, rb)
 				cp.Peer = append(cp.Peer, PeerOp{K: "send", N: n, Segs: genSegs(r, n, rb)})
